@@ -982,6 +982,14 @@ func (w *Writer) needsParens(child ir.ExpressionHandle) bool {
 		// ArrayLength expands to "1 + ..." which contains a binary operator.
 		// Matches Rust naga: ArrayLength uses is_scoped wrapping.
 		return true
+	case ir.ExprSelect:
+		// A scalar-condition select is written as `c ? a : b`, which binds
+		// weaker than every binary operator (a vector condition becomes a
+		// metal::select call and needs nothing).
+		if vec, ok := w.getExpressionType(k.Condition).(ir.VectorType); ok && vec.Scalar.Kind == ir.ScalarBool {
+			return false
+		}
+		return true
 	default:
 		return false
 	}
